@@ -23,6 +23,10 @@ CHECKS = [
   "Coq theorems (Properties/C15.v) prove that the model of decodeTimeout accepts exactly the gRPC wire grammar (1-8 digits + unit), computes value x unit clamped to MaxInt64 without int64 wrap, and refuses every other string. Tie: every string of length <=3 over a boundary alphabet, all digit counts x units, random strings are sent through the real gRPC entry; the handler's observed ctx.Deadline (bracketed by clock readings) is judged by the extracted decision procedure. PARTIAL for cancellation: that net/http cancels the request context and unblocks reads is the run-time's doing; 12 cancel/disconnect scenarios on a loopback h2c/HTTP1 server are observed, not proved.",
   COMMON_NOTE + "context.WithTimeout is an oracle; clock bracketing tolerance; cancellation only observed.",
   "Coq proof that the timeout decoder is the decision procedure of the wire grammar + differential run through serveGRPC; cancellation observed on loopback (partial)"),
+ chk("C05",
+  "Coq theorems (Properties/C05.v, 7, axiom-free): HTTP status and WebSocket close-code lookups are total over all uint32 codes and equal the reference table (finite sweep lifted + range lemma); grpc-message percent-encoding decodes back exactly with grpc-go's decoder for every byte string and is printable ASCII; gRPC-web frames parse back to exactly the written frames; base64 (4 variants) decodes to exactly the encoded bytes; close reason is a prefix within 123 bytes. Tie: ~1.7k scripted-status calls on 8 protocol/codec combinations through the real Mux; the client-side view is judged with the extracted decoders and tables, and the grpc-message header is compared exactly with the model.",
+  COMMON_NOTE + "Reference status table = code.go at the pinned commit; header OWS trimming; trailers-only gRPC-web responses accepted; protojson/proto/gobwas as independent decoders.",
+  "Coq proofs of codec laws (percent-encoding, base64, frames, total table lookups) + extracted decoders applied to the real responses"),
 ]
 
 def main():
